@@ -97,7 +97,7 @@ func genFsSpecWorkload(w *Tape) *fsSpecWorkload {
 		var scripts []fsScript
 		n := w.Range(2, 8)
 		for j := 0; j < n; j++ {
-			s := fsScript{Payload: w.Draw(4), End: []int{0, 0, 0, 1, 2, 3, 4, 5, 6, 7}[w.Draw(10)], Tomb: []int{0, 0, 0, 1, 1, 2}[w.Draw(6)], ReadBack: w.Bool()}
+			s := fsScript{Payload: w.Draw(4), End: []int{0, 0, 0, 1, 2, 3, 4, 5, 6, 7, 8, 8, 9}[w.Draw(13)], Tomb: []int{0, 0, 0, 1, 1, 2}[w.Draw(6)], ReadBack: w.Bool()}
 			nc := w.Range(1, 4)
 			for k := 0; k < nc; k++ {
 				s.Chunks = append(s.Chunks, []int{0, 1, 7, 64, 500}[w.Draw(5)])
@@ -286,6 +286,15 @@ func (st *fsSpecState) writer(wi int, scripts []fsScript, names *[]int) {
 			doAbort()
 		case sc.End == 7:
 			doClose()
+			doAbort()
+			doClose()
+			doAbort()
+		case sc.End == 8:
+			// A repeated Abort (explicit error path plus a deferred one) owns nothing any more:
+			// the names may have been handed out again in between.
+			doAbort()
+			doAbort()
+		case sc.End == 9:
 			doAbort()
 			doClose()
 			doAbort()
